@@ -104,6 +104,37 @@ def run(ctx: Ctx):
             p = hm.parents.get(p)
         return out
 
+    # Where can a use of ALL_TYPES_MAP race with its mutation?  attrs.resolve_types (A6) is the only mutator.  A
+    # function that calls it, anything it calls, and anything register_hooks runs BEFORE it may overlap with another
+    # thread's resolution.  Functions that register_hooks runs after the resolver returned cannot: every thread has
+    # passed through the locked once-block, and the flag is only set after the work (rule flag-set-after-work).
+    def calls_resolve(fn):
+        return any((dotted(c.func) or "").endswith("resolve_types") for c in calls_in(fn))
+    mutators = {n for n in reach if calls_resolve(hm.functions[n])}
+    racy = set(mutators)
+    todo2 = list(mutators)
+    while todo2:
+        n = todo2.pop()
+        for c in calls_in(hm.functions[n]):
+            d = dotted(c.func)
+            if d in hm.functions and d not in racy:
+                racy.add(d)
+                todo2.append(d)
+    rh = hm.functions.get("register_hooks")
+    first_calls = []
+    if rh is not None:
+        for st in rh.body:
+            for c in calls_in(st):
+                d = dotted(c.func)
+                if d in hm.functions:
+                    first_calls.append(d)
+    if mutators:
+        first_mut = next((i for i, d in enumerate(first_calls) if d in racy), None)
+        ctx.check(first_mut == 0, "resolver-runs-first", "register_hooks",
+                  "register_hooks does not run the forward-reference resolver before everything else: functions that use "
+                  "the shared registry may overlap with another thread's resolution", P_HOOKS, rh.lineno if rh else None)
+        if first_mut:
+            racy |= set(first_calls[:first_mut])
     n_state = 0
     for fname in sorted(reach):
         fn = hm.functions[fname]
@@ -130,6 +161,9 @@ def run(ctx: Ctx):
                               "repeats the work", P_HOOKS, w.lineno)
             # uses of the shared registry
             if isinstance(node, ast.Attribute) and node.attr == "ALL_TYPES_MAP" and dotted(node.value) == types_alias:
+                if fname not in racy:
+                    ctx.ok("registry-use-after-resolution", {"function": fname})
+                    continue
                 n_state += 1
                 ctx.check(bool(with_lock_ancestors(node, fn)), "registry-use-under-lock", f"{fname}:ALL_TYPES_MAP",
                           "ALL_TYPES_MAP is iterated / handed to attrs.resolve_types (which mutates it) outside the lock: "
